@@ -43,6 +43,40 @@ var c07Carriers = []string{"GetBlob", "ResolveBlob", "PushManifest", "PushBlobCh
 
 func c07Head(carrier string) bool { return strings.HasPrefix(carrier, "Resolve") }
 
+// c07FitMessage returns a message that makes the marshalled wire body exactly n bytes long.
+func c07FitMessage(code string, detail json.RawMessage, n int) string {
+	size := func(k int) int {
+		data, _ := json.Marshal(ociregistry.WireErrors{Errors: []ociregistry.WireError{{Code_: code, Message: strings.Repeat("m", k), Detail_: detail}}})
+		return len(data)
+	}
+	k := n - size(0)
+	if k < 1 {
+		return "m"
+	}
+	for size(k) > n {
+		k--
+	}
+	return strings.Repeat("m", k)
+}
+
+func (s c07Spec) message() string {
+	var detail json.RawMessage
+	if s.Detail != "" {
+		detail = json.RawMessage(s.Detail)
+	}
+	code := s.Code
+	if code == "" {
+		code = "UNKNOWN"
+	}
+	switch s.Msg {
+	case "<body=8192>":
+		return c07FitMessage(code, detail, 8192)
+	case "<body=8191>":
+		return c07FitMessage(code, detail, 8191)
+	}
+	return s.Msg
+}
+
 func (s c07Spec) build() error {
 	var base error
 	var detail json.RawMessage
@@ -50,9 +84,9 @@ func (s c07Spec) build() error {
 		detail = json.RawMessage(s.Detail)
 	}
 	if s.Code == "<plain>" {
-		base = errors.New(s.Msg)
+		base = errors.New(s.message())
 	} else {
-		base = ociregistry.NewError(s.Msg, s.Code, detail)
+		base = ociregistry.NewError(s.message(), s.Code, detail)
 	}
 	switch s.Wrap {
 	case "fmt":
@@ -181,6 +215,10 @@ func c07Run(r *vcore.Run, s c07Spec, maxHops int) {
 		}
 		if k == 0 {
 			firstIs = is
+			// the message itself crosses the wire (only redundant prefixes may be stripped)
+			if m := s.message(); m != "" && !head && !strings.HasSuffix(err.Error(), m) {
+				r.Violate("err", fp+"/message-lost/"+class+"/msg="+c07MsgClass(s.Msg), s, "error text ending in the original message "+truncate(m, 60), truncate(err.Error(), 200))
+			}
 		} else {
 			for i := range is {
 				if is[i] != firstIs[i] {
@@ -212,6 +250,8 @@ func c07MsgClass(m string) string {
 	switch {
 	case m == "":
 		return "empty"
+	case strings.HasPrefix(m, "<body="):
+		return "body-at-8KiB-limit"
 	case strings.Contains(m, "Not Found") || strings.Contains(m, "Bad Request") || strings.Contains(m, "I'm a teapot"):
 		return "status-prefix"
 	case strings.Contains(m, "unknown:") || strings.Contains(m, "denied:") || strings.Contains(m, "custom:"):
@@ -247,7 +287,7 @@ func c07Specs(thorough bool) []c07Spec {
 	}
 	msgs := func(code string) []string {
 		low := strings.ToLower(strings.ReplaceAll(code, "_", " "))
-		return []string{"something happened", "", low + ": again", "404 Not Found: x", "418 I'm a teapot: blob unknown: y", "a: b: c", "né"}
+		return []string{"something happened", "", low + ": again", "404 Not Found: x", "418 I'm a teapot: blob unknown: y", "a: b: c", "né", "<body=8192>", "<body=8191>"}
 	}
 	details := []string{"", `{}`, `{"a":[1]}`, `"s"`, `{"id":9007199254740993,"big":1e400}`, `[1.10,2.0e0]`}
 	var out []c07Spec
@@ -263,6 +303,9 @@ func c07Specs(thorough bool) []c07Spec {
 					for di, det := range details {
 						if code == "<plain>" && det != "" {
 							continue
+						}
+						if strings.HasPrefix(msg, "<body=") && (w.Wrap != "none" || di > 1 || code == "") {
+							continue // the size is fitted for the wire form of a coded, unwrapped error
 						}
 						// full product only in thorough; quick crosses messages and details with a reduced wrapper set
 						if !thorough && mi > 0 && di > 0 {
